@@ -29,6 +29,8 @@ type Stepper struct {
 	CanDrop func(d *simnet.Datagram) bool
 	// Hold keeps a datagram in flight (not eligible for any action) while it returns true.
 	Hold func(d *simnet.Datagram) bool
+	// Latency, when > 0, is the constant one-way delay of the loss-free network of StepFair.
+	Latency time.Duration
 }
 
 // Eligible returns the in-flight datagrams that are not held, in canonical order.
@@ -147,6 +149,24 @@ func (s *Stepper) StepFaulty() {
 // StepFair delivers the oldest datagram, or advances by delta when none is in flight.
 func (s *Stepper) StepFair(delta time.Duration) {
 	pool := s.Eligible()
+	if s.Latency > 0 {
+		// a loss-free network with a constant one-way latency: a datagram is delivered once it is old enough
+		now := time.Now()
+		ripe := pool[:0:0]
+		wait := delta
+		for _, d := range pool {
+			if age := now.Sub(d.SentAt); age >= s.Latency {
+				ripe = append(ripe, d)
+			} else if s.Latency-age < wait {
+				wait = s.Latency - age
+			}
+		}
+		if len(ripe) == 0 {
+			s.Advance(wait)
+			return
+		}
+		pool = ripe
+	}
 	if len(pool) == 0 {
 		s.Advance(delta)
 		return
